@@ -37,7 +37,7 @@ func goEnv() []string {
 	return env
 }
 
-func LoadEngine(repo, module string, patterns []string, specs *SpecSet) (*Engine, error) {
+func LoadEngine(repo, module string, patterns []string, specs *SpecSet, fileFilter *regexp.Regexp) (*Engine, error) {
 	t0 := time.Now()
 	cfg := &packages.Config{Mode: packages.LoadAllSyntax, Dir: filepath.Join(repo, module), BuildFlags: []string{"-tags=verif"}, Env: goEnv()}
 	pkgs, err := packages.Load(cfg, patterns...)
@@ -62,7 +62,8 @@ func LoadEngine(repo, module string, patterns []string, specs *SpecSet) (*Engine
 	// contract files of the loaded (root) packages
 	for _, p := range pkgs {
 		for _, f := range p.GoFiles {
-			if strings.HasSuffix(f, "zz_contracts_verif.go") {
+			base := filepath.Base(f)
+			if strings.HasPrefix(base, "zz_contracts") && strings.HasSuffix(base, "_verif.go") && (fileFilter == nil || fileFilter.MatchString(base)) {
 				if err := specs.LoadFile(f, p.PkgPath, false); err != nil {
 					return nil, err
 				}
@@ -187,7 +188,7 @@ func (e *Engine) newTrans(fn *ssa.Function, ct *Contract, key string, inst strin
 		dtSeen: map[string]bool{}, declared: map[string]bool{}, compSort: map[string]string{}, vals: map[ssa.Value]Val{},
 		blkOut: map[*ssa.BasicBlock]*State{}, reach: map[*ssa.BasicBlock]string{}, edgeC: map[[2]int]string{},
 		counters: map[string]int{}, abstr: map[string]bool{}, trusted: map[string]bool{}, strs: map[string]string{}, typeIDs: map[string]int{},
-		sentinels: map[string]string{}, ranges: map[*ssa.Range]*rangeState{}, loopPre: map[*ssa.BasicBlock]*State{}}
+		sentinels: map[string]string{}, ranges: map[*ssa.Range]*rangeState{}, loopPre: map[*ssa.BasicBlock]*State{}, ghostDone: map[*ssa.Return]bool{}, compT: map[string]types.Type{}}
 }
 
 type FnResult struct {
@@ -203,7 +204,11 @@ type FnResult struct {
 
 // VerifyFunction generates the obligations of one function under contract (one per instantiation).
 func (e *Engine) Translate(key string, ct *Contract) []*FnResult {
-	fn := e.fnIdx[key]
+	base := key
+	if i := strings.Index(base, "#"); i >= 0 {
+		base = base[:i] // contract variant: same function, different proof mode / clauses
+	}
+	fn := e.fnIdx[base]
 	if fn == nil {
 		return []*FnResult{{Key: key, Err: fmt.Errorf("stale contract: function %s not found in the current tree (%s:%d)", key, ct.File, ct.Line)}}
 	}
